@@ -293,9 +293,9 @@ func runRace(rep *vh.Report, o vh.Opts, replayLine string) {
 		fmt.Sscanf(replayLine, "race seed=%d writers=%d searchers=%d bulks=%d fracsize=%d", &c.seed, &c.writers, &c.searchers, &c.bulks, &c.fracsize)
 		cfgs = append(cfgs, c)
 	} else {
-		n := o.Pick(2, 10)
+		n := o.Pick(3, 12)
 		for i := 0; i < n; i++ {
-			cfgs = append(cfgs, cfg{int(o.Seed)*100 + i, 2 + i%4, 2 + (i/2)%4, o.Pick(40, 120), []int{3000, 1200, 8000}[i%3]})
+			cfgs = append(cfgs, cfg{int(o.Seed)*100 + i, 2 + i%4, 2 + (i/2)%4, o.Pick(150, 400), []int{600, 1500, 4000}[i%3]})
 		}
 	}
 	seenRace := map[string]bool{}
